@@ -11,7 +11,7 @@ for f in sorted(glob.glob(V + "/*/meta.json")):
 n = len(rows)
 hdr = """# Seeded changes
 
-Written by sub-agents that saw only the text of one property and a scratch worktree of /repo (nothing from /verif). Round 1 (`Cnn-s1/s2`): 20 agents x 2 seeds; round 2 (`Cnn-r2s1..3`): 10 agents x 3 seeds, asked for subtler changes; round 3 (`Cnn-r3s1..3`): the other 10 properties x 3 seeds, same brief as round 2. Each was confirmed here: the demo fails with the change and passes without it; `cargo test --lib --test cc --test auto_collect` and `cargo test --lib -F weak-ptrs,cleaners` pass with it (macro_tests fails in the pinned baseline and is skipped). The checks were run the prescribed way (`git -C /repo apply`, `./vf all`, `git -C /repo checkout -- .`) by tools/eval_seed.py; tools/recheck_seeds.py refreshes the `fired` columns with the current engine on scratch copies. %d changes, %d caught, %d by the check of the property they were written against.
+Written by sub-agents that saw only the text of one property and a scratch worktree of /repo (nothing from /verif). Round 1 (`Cnn-s1/s2`): 20 agents x 2 seeds; round 2 (`Cnn-r2s1..3`): 10 agents x 3 seeds, asked for subtler changes; round 3 (`Cnn-r3s1..3`): the other 10 properties x 3 seeds, same brief as round 2; round 4 (`Cnn-r4s1..2`): 10 properties x 2 seeds, data-and-condition-only slips with the code shape intact. Each was confirmed here: the demo fails with the change and passes without it; `cargo test --lib --test cc --test auto_collect` and `cargo test --lib -F weak-ptrs,cleaners` pass with it (macro_tests fails in the pinned baseline and is skipped). The checks were run the prescribed way (`git -C /repo apply`, `./vf all`, `git -C /repo checkout -- .`) by tools/eval_seed.py; tools/recheck_seeds.py refreshes the `fired` columns with the current engine on scratch copies. %d changes, %d caught, %d by the check of the property they were written against.
 
 | id | property | caught | by its own check | own-check rules that fire | all rules that fire (first 6) | needs to manifest |
 |---|---|---|---|---|---|---|
